@@ -646,6 +646,18 @@ def c04_callid(ctx):
     ab = [n for n in nodes_of_type(cb, ast.If) if mentions(n.test, "self.parallel._aborting") and any(isinstance(s, ast.Return) for s in n.body)]
     ctx.check(bool(ab) and gc_.every_path_to(gc_.nodes_of_all(rr), gc_.nodes_of_all(ab)), ab[0] if ab else cb,
               "aborting => the callback returns before retrieving/dispatching")
+    # the abort flag is read in the same critical section that registers the outcome: a value read before the lock is
+    # taken is stale once the lock is obtained (the aborting thread resets the job containers under that lock)
+    ab_locked = [n for n in ab if under_lock(n)]
+    ctx.check(bool(ab_locked) and gc_.every_path_to(gc_.nodes_of_all(rr), gc_.nodes_of_all(ab_locked)), ab_locked[0] if ab_locked else (ab[0] if ab else cb),
+              "the abort flag is tested under the dispatch lock, in the section that retrieves and registers the result",
+              "the callback tests _aborting before taking the dispatch lock: a completion that waits for the lock while the call is torn down registers its tracker afterwards, in the containers of the NEXT call")
+    # the id is renewed before the call can be observed by the backend or by user code: a completion of the previous call
+    # that fires meanwhile must already see a foreign id
+    hooks = [c for c in calls_in(call) if call_name(c) in ("self._backend.start_call", "iter")]
+    for c in hooks:
+        ctx.check(g.every_path_to(g.nodes_of(c), g.nodes_of_all(st)), c, "_call_id is renewed before %s" % call_name(c),
+                  "%s(...) runs before _call_id is renewed: a completion callback of the previous (closed or aborted) call that fires during it passes the stale-call guard and dispatches from the closed call's input" % call_name(c))
     for c in rr:
         ctx.check(under_lock(c), c, "outcome registration in the callback runs under the dispatch lock")
 
@@ -1326,6 +1338,12 @@ def c09_bound(ctx):
         ctx.check(not any(d in forbidden for d in deps), c, "pre_dispatch bound does not depend on the input length",
                   "pre_dispatch bound depends on %s" % sorted(d for d in deps if d in forbidden))
         ctx.check("eval_expr()" in deps or "int()" in deps, c, "pre_dispatch bound is int(eval_expr(pre_dispatch with n_jobs substituted)) or the integer given")
+    # a fractional amount ('1.5*n_jobs') is truncated, never rounded up: the look-ahead may not exceed the bound
+    for a in nodes_of_type(call, ast.Assign):
+        if "self._pre_dispatch_amount" in stores_to(a) and not is_const(a.value, 0):
+            v = a.value
+            ctx.check(isinstance(v, ast.Call) and call_name(v) in ("int", "math.floor") and len(v.args) == 1, a, "the pre_dispatch amount is truncated with %s()" % (call_name(v) if isinstance(v, ast.Call) else "?"),
+                      "the pre_dispatch amount is computed as %s: fractional forms such as '1.5*n_jobs' can be rounded UP, one item more than the bound is consumed ahead" % unparse(v))
 
 
 def g_in_else(func, node):
@@ -1689,6 +1707,47 @@ def c16_support(ctx):
                   "__call__ returns the generator itself, or list(generator) for return_as='list'")
 
 
+def _lb_guarded(expr, f, g, at, depth=3):
+    """integer lower bound using the guards in force at statement `at`:
+       old_batch_size >= 1 (the stored effective batch size, an invariant decided separately);
+       k * X >= k * lb(X) for a literal k >= 0;  min / max as usual;  a local resolves through its reaching definitions;
+       int(X * C / d) >= lb(X) when the guards give 0 < d < C (the ratio C / d exceeds 1)."""
+    from ..core import cond_facts
+    if isinstance(expr, ast.Constant) and isinstance(expr.value, int):
+        return expr.value
+    if dotted(expr) == "old_batch_size":
+        return 1
+    if isinstance(expr, ast.Call) and call_name(expr) in ("max", "min") and expr.args:
+        bs = [_lb_guarded(a, f, g, at, depth) for a in expr.args]
+        if call_name(expr) == "max":
+            bs = [b for b in bs if b is not None]
+            return max(bs) if bs else None
+        return min(bs) if all(b is not None for b in bs) else None
+    if isinstance(expr, ast.BinOp) and isinstance(expr.op, ast.Mult):
+        for k, x in ((expr.left, expr.right), (expr.right, expr.left)):
+            if isinstance(k, ast.Constant) and isinstance(k.value, int) and k.value >= 0:
+                b = _lb_guarded(x, f, g, at, depth)
+                return None if b is None or b < 0 else k.value * b
+    if isinstance(expr, ast.Call) and call_name(expr) == "int" and len(expr.args) == 1:
+        q = expr.args[0]
+        if isinstance(q, ast.BinOp) and isinstance(q.op, ast.Div) and isinstance(q.left, ast.BinOp) and isinstance(q.left.op, ast.Mult):
+            den, X, C = unparse(q.right), q.left.left, unparse(q.left.right)
+            facts = set(cond_facts(g.conditions_at(g.nodes_of(at))))
+            pos = {("0 < %s" % den, True), ("%s > 0" % den, True), ("%s <= 0" % den, False), ("0 >= %s" % den, False)} & facts
+            small = {("%s < %s" % (den, C), True), ("%s > %s" % (C, den), True), ("%s <= %s" % (C, den), False), ("%s >= %s" % (den, C), False)} & facts
+            b = _lb_guarded(X, f, g, at, depth)
+            if pos and small and b is not None and b >= 0:
+                return b
+        return None
+    if isinstance(expr, ast.Name) and depth > 0:
+        defs = [a for a in nodes_of_type(f, ast.Assign) if expr.id in stores_to(a)]
+        reaching = [a for a in defs if g.path_exists(g.nodes_of(a), g.nodes_of(at))]
+        bs = [_lb_guarded(a.value, f, g, a, depth - 1) for a in reaching]
+        if reaching and all(b is not None for b in bs):
+            return min(bs)
+    return None
+
+
 def c01_batchsize(ctx):
     """The batch size handed to dispatch_one_batch is >= 1 on every path
     (a zero batch size slices nothing and ends the iteration early)."""
@@ -1709,6 +1768,8 @@ def c01_batchsize(ctx):
         n += 1
         v = d.value
         lb = lower_bound(v, None) if not isinstance(d, ast.AugAssign) else None
+        if lb is None and not isinstance(d, ast.AugAssign):
+            lb = _lb_guarded(v, f, g, d)
         if lb is None and isinstance(v, ast.Call) and call_name(v) == "max":
             lb = max([x.value for x in v.args if isinstance(x, ast.Constant) and isinstance(x.value, int)] or [None]) if any(isinstance(x, ast.Constant) for x in v.args) else None
         keep = dotted(v) == "old_batch_size"
